@@ -1513,12 +1513,18 @@ def q_list_rmw(cfg):
             ok = op in ('load', 'exchange', 'compare_exchange_weak', 'compare_exchange_strong')
             if op == 'exchange':
                 a = f.strip_casts(e['args'][0]) if e.get('args') else None
-                okx = isinstance(a, dict) and a.get('k') == 'nullptr' and orders and orders[0] in (atomics.ACQ if hasattr(atomics, 'ACQ') else (2, 4, 5))
+                okx = isinstance(a, dict) and a.get('k') == 'nullptr' and orders and orders[0] in atomics.ACQ
                 if not okx:
                     ok = False
+            why_order = ''
+            if op.startswith('compare_exchange'):
+                # a successful push / publish makes the node's requests visible to whoever takes the list: release on success
+                if not (orders and orders[0] in atomics.REL):
+                    ok = False
+                    why_order = ' (success order %s: the CAS that publishes a list node must be at least release, or the thread that takes the list may read the requests before they were written)' % atomics.ORDER_NAMES.get(orders[0] if orders else 5)
             res.ob(ok, {'rule': 'Q-19', 'function': sh(f.sig)[:90], 'op': op, 'site': fileline(e.get('loc')), 'verdict': 'discharged' if ok else 'VIOLATION'})
             if not ok:
-                res.find(f, e.get('loc'), '%s changes an orphan-list head by `%s`: the head must only change by compare_exchange or by exchange(nullptr) with acquire semantics - a plain store (or a take that is not one atomic exchange) loses every node that a pausing / exiting thread pushes between the read and the write; its requests are never freed' % (f.short, op), key='Q-19:%s:%s' % (f.short, op), config=cfg.name)
+                res.find(f, e.get('loc'), '%s changes an orphan-list head by `%s`: the head must only change by compare_exchange or by exchange(nullptr) with acquire semantics - a plain store (or a take that is not one atomic exchange) loses every node that a pausing / exiting thread pushes between the read and the write; its requests are never freed%s' % (f.short, op, why_order), key='Q-19:%s:%s' % (f.short, op), config=cfg.name)
     res.count('accesses to the orphan-list heads', n)
     res.floor('accesses to the orphan-list heads', 5)
     return res
